@@ -575,9 +575,10 @@ TRACE_CONSTS = {"Workers": '{"w1"}', "MaxCrashes": 0, "MaxRollbacks": 0, "MaxFor
 
 
 def trace_consts() -> dict:
-    """As the code is: all three named defects present.  To validate a tree in which some are repaired
-    (docs/proposed_fixes/C12.diff, C13.diff) list the remaining ones in VERIF_EVENTS_DEFECTS, e.g. ""."""
-    left = os.environ.get("VERIF_EVENTS_DEFECTS", "skip,errpath,taskcancel").split(",")
+    """As the code is: of the three named defects the specification can reproduce, `skip` and `errpath` were repaired
+    in /repo (8d966bb, 3faa221); `taskcancel` (known finding) is still there.  To validate another tree list the
+    defects it has in VERIF_EVENTS_DEFECTS (e.g. "skip,errpath,taskcancel" for the pinned commit, "" for all repaired)."""
+    left = os.environ.get("VERIF_EVENTS_DEFECTS", "taskcancel").split(",")
     c = dict(TRACE_CONSTS)
     c["Defect_SkipEventBeforeCommit"] = "TRUE" if "skip" in left else "FALSE"
     c["Defect_ErrorPathNoEvent"] = "TRUE" if "errpath" in left else "FALSE"
